@@ -486,3 +486,299 @@ Section PackratThreads.
       split; [exact IH1|]. intros t0 e [[= <- <-]|Hin]; [exact He|eapply IH2; exact Hin].
   Qed.
 End PackratThreads.
+
+(* ================================================================================================
+   Left-recursion mode machine: two locks.  Lock invariants, the lock order, no deadlock.
+   (Outcome correctness does NOT hold in this mode: see the refutation witness in Props/C15.v.)
+   ================================================================================================ *)
+Section LockInv.
+  Context {T : Type} (h : T -> nat).
+
+  Definition linv (ths : list T) (ow : option tid) (n : nat) : Prop :=
+    match ow with
+    | None => n = 0 /\ forall t th, nth_error ths t = Some th -> h th = 0
+    | Some u => n > 0 /\ (exists th, nth_error ths u = Some th /\ h th = n) /\
+                forall t th, t <> u -> nth_error ths t = Some th -> h th = 0
+    end.
+
+  Lemma linv_same ths ow n t th th' :
+    linv ths ow n -> nth_error ths t = Some th -> h th' = h th -> linv (upd ths t th') ow n.
+  Proof.
+    intros HL En Hh. unfold linv in *. destruct ow as [u|].
+    - destruct HL as (Hn & (thu & Hu & Hhu) & Hoth). split; [exact Hn|]. split.
+      + destruct (Nat.eq_dec t u) as [->|Hne].
+        * exists th'. split; [eapply nth_error_upd_eq; eassumption|]. rewrite Hh. congruence.
+        * exists thu. split; [rewrite nth_error_upd_neq by assumption; exact Hu|exact Hhu].
+      + intros t0 th0 Hne H0. destruct (Nat.eq_dec t t0) as [<-|Hne'].
+        * rewrite (nth_error_upd_eq _ _ _ _ En) in H0. injection H0 as <-. rewrite Hh. eapply Hoth; eassumption.
+        * rewrite nth_error_upd_neq in H0 by assumption. eapply Hoth; eassumption.
+    - destruct HL as (Hn & Hall). split; [exact Hn|]. intros t0 th0 H0.
+      destruct (Nat.eq_dec t t0) as [<-|Hne'].
+      + rewrite (nth_error_upd_eq _ _ _ _ En) in H0. injection H0 as <-. rewrite Hh. eapply Hall; eassumption.
+      + rewrite nth_error_upd_neq in H0 by assumption. eapply Hall; eassumption.
+  Qed.
+
+  Lemma linv_acq ths ow n t th th' :
+    linv ths ow n -> nth_error ths t = Some th -> can_acq ow t = true -> h th' = S (h th) ->
+    linv (upd ths t th') (Some t) (S n).
+  Proof.
+    intros HL En Hca Hh. unfold linv in *. split; [lia|]. split.
+    - exists th'. split; [eapply nth_error_upd_eq; eassumption|].
+      destruct ow as [u|].
+      + simpl in Hca. apply Nat.eqb_eq in Hca. subst u. destruct HL as (_ & (thu & Hu & Hhu) & _).
+        assert (thu = th) by congruence. subst thu. lia.
+      + destruct HL as (Hn & Hall). rewrite (Hall _ _ En) in Hh. lia.
+    - intros t0 th0 Hne H0. rewrite nth_error_upd_neq in H0 by auto.
+      destruct ow as [u|].
+      + simpl in Hca. apply Nat.eqb_eq in Hca. subst u. destruct HL as (_ & _ & Hoth). eapply Hoth; eassumption.
+      + destruct HL as (_ & Hall). eapply Hall; eassumption.
+  Qed.
+
+  Lemma linv_owner ths ow n t th : linv ths ow n -> nth_error ths t = Some th -> h th >= 1 -> ow = Some t.
+  Proof.
+    intros HL En Hh. unfold linv in HL. destruct ow as [u|].
+    - destruct HL as (_ & _ & Hoth). destruct (Nat.eq_dec t u) as [->|Hne]; [reflexivity|].
+      rewrite (Hoth _ _ Hne En) in Hh. lia.
+    - destruct HL as (_ & Hall). rewrite (Hall _ _ En) in Hh. lia.
+  Qed.
+
+  Lemma linv_rel ths ow n t th th' :
+    linv ths ow n -> nth_error ths t = Some th -> h th = S (h th') ->
+    linv (upd ths t th') (fst (release ow n)) (snd (release ow n)).
+  Proof.
+    intros HL En Hh.
+    assert (Ho : ow = Some t) by (eapply linv_owner; try eassumption; lia). subst ow.
+    unfold linv in *. destruct HL as (Hn & (thu & Hu & Hhu) & Hoth).
+    assert (thu = th) by congruence. subst thu.
+    unfold release. destruct n as [|[|m]]; [lia| |]; simpl.
+    - split; [reflexivity|]. intros t0 th0 H0. destruct (Nat.eq_dec t t0) as [<-|Hne'].
+      + rewrite (nth_error_upd_eq _ _ _ _ En) in H0. injection H0 as <-. lia.
+      + rewrite nth_error_upd_neq in H0 by assumption. eapply Hoth; [|eassumption]. auto.
+    - split; [lia|]. split.
+      + exists th'. split; [eapply nth_error_upd_eq; eassumption|lia].
+      + intros t0 th0 Hne' H0. rewrite nth_error_upd_neq in H0 by auto. eapply Hoth; eassumption.
+  Qed.
+
+  Lemma linv_holder_unique ths ow n t1 t2 th1 th2 : linv ths ow n ->
+    nth_error ths t1 = Some th1 -> nth_error ths t2 = Some th2 -> h th1 >= 1 -> h th2 >= 1 -> t1 = t2.
+  Proof.
+    intros HL H1 H2 G1 G2.
+    pose proof (linv_owner _ _ _ _ _ HL H1 G1). pose proof (linv_owner _ _ _ _ _ HL H2 G2). congruence.
+  Qed.
+End LockInv.
+
+Section LRThreads.
+  Variables A O K V : Type.
+  Variable mstep : A -> mprog A O K V.
+  Variable K_eqb : K -> K -> bool.
+  Variable entry : A -> bool.
+  Variable locked : A -> bool.
+  Variable del_is_noop : bool.
+
+  Notation lstep := (lstep A O K V mstep K_eqb entry locked del_is_noop).
+  Notation lcstep := (lcstep A O K V mstep K_eqb entry locked del_is_noop).
+  Notation lexec := (lexec A O K V mstep K_eqb entry locked del_is_noop).
+  Notation lthread := (lthread A O K V).
+  Notation lconfig := (lconfig A O K V).
+
+  Definition llock_inv (cf : lconfig) : Prop :=
+    linv lholdsP (l_threads cf) (l_pown cf) (l_pcnt cf) /\
+    linv lholdsR (l_threads cf) (l_rown cf) (l_rcnt cf).
+
+  Lemma lstep_spec t th cf th' m' P' R' e :
+    lstep t th cf = (th', m', P', R', e) ->
+    match e with
+    | EAcq => can_acq (l_pown cf) t = true /\ P' = (Some t, S (l_pcnt cf)) /\ R' = (l_rown cf, l_rcnt cf) /\
+              lholdsP th' = S (lholdsP th) /\ lholdsR th' = lholdsR th
+    | ERel => P' = release (l_pown cf) (l_pcnt cf) /\ R' = (l_rown cf, l_rcnt cf) /\
+              lholdsP th = S (lholdsP th') /\ lholdsR th' = lholdsR th
+    | EAcqR => can_acq (l_rown cf) t = true /\ R' = (Some t, S (l_rcnt cf)) /\ P' = (l_pown cf, l_pcnt cf) /\
+               lholdsR th' = S (lholdsR th) /\ lholdsP th' = lholdsP th /\ lholdsP th = 0
+    | ERelR => R' = release (l_rown cf) (l_rcnt cf) /\ P' = (l_pown cf, l_pcnt cf) /\
+               lholdsR th = S (lholdsR th') /\ lholdsP th' = lholdsP th /\ lholdsP th = 0
+    | EClear | EMClear => P' = (l_pown cf, l_pcnt cf) /\ R' = (l_rown cf, l_rcnt cf) /\
+               lholdsP th' = lholdsP th /\ lholdsR th' = lholdsR th /\ lholdsP th = 1
+    | EMGet _ | EMSet | EMDel | ETau => P' = (l_pown cf, l_pcnt cf) /\ R' = (l_rown cf, l_rcnt cf) /\
+               lholdsP th' = lholdsP th /\ lholdsR th' = lholdsR th /\ lholdsP th = 0 /\ lresult_of th = None
+    | EBlock => th' = th /\ P' = (l_pown cf, l_pcnt cf) /\ R' = (l_rown cf, l_rcnt cf) /\ lholdsP th = 0 /\
+                (can_acq (l_pown cf) t = false \/ can_acq (l_rown cf) t = false)
+    | EDone => th' = th /\ P' = (l_pown cf, l_pcnt cf) /\ R' = (l_rown cf, l_rcnt cf) /\ lresult_of th <> None
+    | _ => False
+    end.
+  Proof.
+    unfold Threads.lstep, lholdsP, lholdsR, lresult_of. destruct th as [cl st]; simpl.
+    destruct cl as [[o|a k|key k|key v k|key k]|a k|a k|a k]; simpl.
+    - destruct st as [|[a k|a k] st'].
+      + intros [= <- <- <- <- <-]. repeat split; discriminate.
+      + intros [= <- <- <- <- <-]; simpl; repeat split.
+      + intros [= <- <- <- <- <-]; simpl; repeat split.
+    - destruct (entry a).
+      + destruct (can_acq (l_pown cf) t) eqn:Ec; intros [= <- <- <- <- <-]; simpl; repeat split; auto.
+      + destruct (locked a).
+        * destruct (can_acq (l_rown cf) t) eqn:Ec; intros [= <- <- <- <- <-]; simpl; repeat split; auto.
+        * intros [= <- <- <- <- <-]; simpl; repeat split.
+    - intros [= <- <- <- <- <-]; simpl; repeat split.
+    - intros [= <- <- <- <- <-]; simpl; repeat split.
+    - intros [= <- <- <- <- <-]; simpl; repeat split.
+    - intros [= <- <- <- <- <-]; simpl; repeat split.
+    - intros [= <- <- <- <- <-]; simpl; repeat split.
+    - intros [= <- <- <- <- <-]; simpl; repeat split.
+  Qed.
+
+  Lemma lcstep_lock_inv t cf : llock_inv cf -> llock_inv (fst (lcstep t cf)).
+  Proof.
+    intros [HP HR]. unfold Threads.lcstep.
+    destruct (nth_error (l_threads cf) t) as [th|] eqn:En; [|split; assumption].
+    destruct (lstep t th cf) as [[[[th' m'] P'] R'] e] eqn:Et.
+    pose proof (lstep_spec _ _ _ _ _ _ _ _ Et) as HT. unfold llock_inv; simpl.
+    destruct e; try contradiction.
+    - (* EAcq *) destruct HT as (Hca & -> & -> & H1 & H2). simpl. split.
+      + eapply linv_acq; eassumption.
+      + eapply linv_same; eassumption.
+    - (* ERel *) destruct HT as (-> & -> & H1 & H2). simpl. split.
+      + eapply linv_rel; eassumption.
+      + eapply linv_same; eassumption.
+    - (* EClear *) destruct HT as (-> & -> & H1 & H2 & _). simpl. split; eapply linv_same; eassumption.
+    - (* EAcqR *) destruct HT as (Hca & -> & -> & H1 & H2 & _). simpl. split.
+      + eapply linv_same; eassumption.
+      + eapply linv_acq; eassumption.
+    - (* ERelR *) destruct HT as (-> & -> & H1 & H2 & _). simpl. split.
+      + eapply linv_same; eassumption.
+      + eapply linv_rel; eassumption.
+    - destruct HT as (-> & -> & H1 & H2 & _). simpl. split; eapply linv_same; eassumption.
+    - destruct HT as (-> & -> & H1 & H2 & _). simpl. split; eapply linv_same; eassumption.
+    - destruct HT as (-> & -> & H1 & H2 & _). simpl. split; eapply linv_same; eassumption.
+    - (* EMClear *) destruct HT as (-> & -> & H1 & H2 & _). simpl. split; eapply linv_same; eassumption.
+    - destruct HT as (-> & -> & H1 & H2 & _). simpl. split; eapply linv_same; eassumption.
+    - (* EBlock *) destruct HT as (-> & -> & -> & _). simpl. split; eapply linv_same; try eassumption; reflexivity.
+    - (* EDone *) destruct HT as (-> & -> & -> & _). simpl. split; eapply linv_same; try eassumption; reflexivity.
+  Qed.
+
+  Lemma lexec_lock_inv sched : forall cf, llock_inv cf -> llock_inv (lexec sched cf).
+  Proof. induction sched as [|t s IH]; intros cf H; simpl; [exact H|]. apply IH, lcstep_lock_inv, H. Qed.
+
+  Lemma linit_lock_inv progs : llock_inv (linit progs).
+  Proof.
+    unfold llock_inv, linit, linv; simpl. split; (split; [reflexivity|]); intros t th H;
+      apply nth_error_In, in_map_iff in H; destruct H as (p & <- & _); reflexivity.
+  Qed.
+
+  Definition lreachable (progs : list (mprog A O K V)) (cf : lconfig) : Prop :=
+    exists sched, cf = lexec sched (linit progs).
+
+  Lemma lreachable_inv progs cf : lreachable progs cf -> llock_inv cf.
+  Proof. intros [s ->]. apply lexec_lock_inv, linit_lock_inv. Qed.
+
+  (* each lock has at most one holder *)
+  Theorem lr_exclusive progs cf t1 t2 th1 th2 : lreachable progs cf ->
+    nth_error (l_threads cf) t1 = Some th1 -> nth_error (l_threads cf) t2 = Some th2 ->
+    (lholdsP th1 >= 1 -> lholdsP th2 >= 1 -> t1 = t2) /\ (lholdsR th1 >= 1 -> lholdsR th2 >= 1 -> t1 = t2).
+  Proof.
+    intros Hr H1 H2. destruct (lreachable_inv _ _ Hr) as [HP HR]. split; intros G1 G2.
+    - eapply (linv_holder_unique lholdsP); eassumption.
+    - eapply (linv_holder_unique lholdsR); eassumption.
+  Qed.
+
+  (* the lock order: while inside `with packrat_cache_lock:` (reset_cache) a thread requests nothing: its next
+     operation is the cache clear, the memo clear or the release.  recursion_lock is therefore only ever requested
+     with packrat_cache_lock not held by the requester; the only nesting is recursion_lock -> packrat_cache_lock
+     (an entry point called from a parse action below a Forward). *)
+  Theorem lr_lock_order cf t th : nth_error (l_threads cf) t = Some th -> lholdsP th >= 1 ->
+    snd (lcstep t cf) = EClear \/ snd (lcstep t cf) = EMClear \/ snd (lcstep t cf) = ERel.
+  Proof.
+    intros En Hh. unfold Threads.lcstep. rewrite En.
+    destruct (lstep t th cf) as [[[[th' m'] P'] R'] e] eqn:Et. simpl.
+    unfold Threads.lstep in Et. unfold lholdsP in Hh.
+    destruct th as [[p|a k|a k|a k] st]; simpl in *; [lia| | |]; injection Et as <- <- <- <- <-; auto.
+  Qed.
+
+  Lemma lholdsR_finished (th : lthread) : lresult_of th <> None -> lholdsR th = 0 /\ lholdsP th = 0.
+  Proof.
+    unfold lresult_of, lholdsR, lholdsP.
+    destruct th as [[[o|a k|key k|key v k|key k]|a k|a k|a k] [|fr st]]; simpl; try congruence. auto.
+  Qed.
+
+  (* no deadlock with the two locks *)
+  Theorem lr_no_deadlock progs cf : lreachable progs cf ->
+    lall_finished cf = true \/
+    exists t th, nth_error (l_threads cf) t = Some th /\ lresult_of th = None /\
+                 snd (lcstep t cf) <> EBlock /\ snd (lcstep t cf) <> EDone.
+  Proof.
+    intros Hr. destruct (lreachable_inv _ _ Hr) as [HP HR].
+    assert (Hstep : forall t th, nth_error (l_threads cf) t = Some th -> lresult_of th = None ->
+                     can_acq (l_pown cf) t = true -> can_acq (l_rown cf) t = true ->
+                     snd (lcstep t cf) <> EBlock /\ snd (lcstep t cf) <> EDone).
+    { intros t th En Hres Hp Hr'. unfold Threads.lcstep. rewrite En.
+      destruct (lstep t th cf) as [[[[th' m'] P'] R'] e] eqn:Et.
+      pose proof (lstep_spec _ _ _ _ _ _ _ _ Et) as HT. simpl.
+      destruct e; split; try discriminate; intros _.
+      - destruct HT as (_ & _ & _ & _ & [Hb|Hb]); congruence.
+      - destruct HT as (_ & _ & _ & Hd). congruence. }
+    unfold linv in HP. destruct (l_pown cf) as [u|] eqn:EP.
+    - (* somebody is inside reset_cache: it can go on *)
+      right. destruct HP as (Hn & (thu & Hu & Hhu) & _). exists u, thu.
+      assert (Hh : lholdsP thu >= 1) by lia.
+      assert (Hres : lresult_of thu = None).
+      { destruct (lresult_of thu) eqn:Er; [|reflexivity].
+        assert (lholdsP thu = 0) by (apply lholdsR_finished; congruence). lia. }
+      split; [exact Hu|]. split; [exact Hres|].
+      destruct (lr_lock_order cf u thu Hu Hh) as [E|[E|E]]; rewrite E; split; discriminate.
+    - unfold linv in HR. destruct (l_rown cf) as [u|] eqn:ER.
+      + (* packrat_cache_lock is free; the owner of recursion_lock can go on *)
+        right. destruct HR as (Hn & (thu & Hu & Hhu) & _). exists u, thu.
+        assert (Hres : lresult_of thu = None).
+        { destruct (lresult_of thu) eqn:Er; [|reflexivity].
+          assert (lholdsR thu = 0) by (apply lholdsR_finished; congruence). lia. }
+        split; [exact Hu|]. split; [exact Hres|]. apply (Hstep u thu Hu Hres); simpl; [reflexivity|].
+        apply Nat.eqb_refl.
+      + destruct (lall_finished cf) eqn:Ef; [left; reflexivity|right].
+        unfold lall_finished in Ef. apply forallb_false_nth in Ef. destruct Ef as (t & th & En & Hf).
+        exists t, th. assert (Hres : lresult_of th = None) by (destruct (lresult_of th); [discriminate|reflexivity]).
+        split; [exact En|]. split; [exact Hres|]. apply (Hstep t th En Hres); reflexivity.
+  Qed.
+
+  (* what IS disciplined in this mode: the owner of packrat_cache_lock does the clears and the release ... *)
+  Theorem lr_reset_by_owner progs cf t : lreachable progs cf ->
+    (snd (lcstep t cf) = EClear \/ snd (lcstep t cf) = EMClear \/ snd (lcstep t cf) = ERel) ->
+    l_pown cf = Some t.
+  Proof.
+    intros Hr He. destruct (lreachable_inv _ _ Hr) as [HP _]. revert He. unfold Threads.lcstep.
+    destruct (nth_error (l_threads cf) t) as [th|] eqn:En; [|simpl; intros [E|[E|E]]; discriminate].
+    destruct (lstep t th cf) as [[[[th' m'] P'] R'] e] eqn:Et.
+    pose proof (lstep_spec _ _ _ _ _ _ _ _ Et) as HT. simpl. intros He.
+    eapply (linv_owner lholdsP); try eassumption.
+    destruct He as [He|[He|He]]; rewrite He in HT; intuition lia.
+  Qed.
+End LRThreads.
+
+(* the packrat / no-memo machine never touches recursion_lock or recursion_memos except for the clear inside reset_cache *)
+Lemma packrat_machine_events A O step A_eqb size entry cacheable memo_on t cf :
+  match snd (cstep A O step A_eqb size entry cacheable memo_on t cf) with
+  | EAcqR | ERelR | EMGet _ | EMSet | EMDel => False
+  | _ => True
+  end.
+Proof.
+  unfold cstep. destruct (nth_error (c_threads cf) t) as [th|]; [|exact I].
+  destruct (tstep A O step A_eqb size entry cacheable memo_on t th (c_cache cf) (c_owner cf) (c_count cf))
+    as [[[[th' c'] ow'] n'] e] eqn:Et.
+  pose proof (tstep_lock A O step A_eqb size entry cacheable memo_on _ _ _ _ _ _ _ _ _ _ Et) as HT. simpl.
+  destruct e; auto.
+Qed.
+
+(* ---------- the small concrete instance (Model/ThreadsMini.v): its key equality is sound ---------- *)
+From PP Require Import Model.ThreadsMini.
+
+Lemma list_eqb_spec l1 : forall l2, list_eqb l1 l2 = true -> l1 = l2.
+Proof.
+  induction l1 as [|x l1 IH]; intros [|y l2]; simpl; try discriminate; [reflexivity|].
+  intros H. apply andb_true_iff in H as [H1 H2]. apply Nat.eqb_eq in H1. f_equal; [exact H1|apply IH, H2].
+Qed.
+
+Lemma args_eqb_spec a b : args_eqb a b = true -> a = b.
+Proof.
+  unfold args_eqb. destruct a as [k1 e1 s1 l1 d1 p1], b as [k2 e2 s2 l2 d2 p2]; simpl.
+  intros H. repeat (apply andb_true_iff in H as [H ?]).
+  apply Nat.eqb_eq in H4. apply list_eqb_spec in H3. apply Nat.eqb_eq in H2.
+  apply eqb_prop in H1. apply eqb_prop in H0. subst.
+  destruct k1, k2; simpl in H; try discriminate; reflexivity.
+Qed.
